@@ -12,6 +12,11 @@ from vlib.core import Outcome, line
 
 FAMS = ['sq', 'poly3', 'lin']
 FAM_POOL = ['sq', 'sq', 'sq', 'poly3', 'poly3', 'poly3', 'lin']
+# NOT generated: per-example losses that keep a trailing unit dimension (shape [B, 1]).  fedjax documents
+# per_example_loss as "a function from (params, batch_example, rng) to a VECTOR of loss values for each example in the
+# batch"; with a [B, 1] result two accepted property-preserving rewrites change behaviour (harmless/C06-1: the VJP with a
+# [B] cotangent raises; harmless/C06-3: the average loss is wrong), so demanding it would demand more than the property
+# states.  The family 'sqcol' below is kept for manual probing only.
 APIS_DATASET = ['avg', 'evaluator', 'mime', 'domains', 'cluster']
 NUM_DOMAINS = 3
 # algorithm-level probes (real agnostic_federated_averaging / mime rounds): everything except the padded-batch
@@ -87,6 +92,7 @@ class C06(core.Property):
         'sq': lambda batch, z: (z - batch['y']) ** 2,
         'poly3': lambda batch, z: z * z * z - batch['y'] * z + 1.0,
         'lin': lambda batch, z: 2 * z + batch['y'],
+        'sqcol': lambda batch, z: (0.5 * (z - batch['y']) ** 2)[:, None],
         'log': lambda batch, z: jnp.log(z) * batch['y'],
     }
     self.model_of = {}
@@ -109,7 +115,7 @@ class C06(core.Property):
       jax, pel = self.jax, self.pel[fam]
 
       def single(p, xi, yi):
-        return pel(p, {'x': xi[None], 'y': yi[None]}, None)[0]
+        return pel(p, {'x': xi[None], 'y': yi[None]}, None).reshape(-1)[0]
       self._per_ex[fam] = jax.jit(jax.vmap(jax.value_and_grad(single), in_axes=(None, 0, 0)))
     pad = (-n) % 16
     xp = np.concatenate([np.asarray(x, dtype=np.float32), np.ones((pad, np.shape(x)[1]), dtype=np.float32)])
@@ -271,7 +277,25 @@ class C06(core.Property):
       case['alpha'] = [rng.choice([0.25, 0.5, 1, 2]) for _ in range(NUM_DOMAINS)]
     return case
 
-  def _algo_case(self, rng, tier, api=None, reg='random', repeat_ids=False):
+  @staticmethod
+  def prep_domain(prep, e, dx):
+    """domain id of an example AFTER the dataset's batch preprocessor (what every pass of the algorithm sees)"""
+    if prep == 'coarsen':
+      return int(e[dx + 1]) // 2
+    if prep == 'from_y':
+      return int(e[dx]) % NUM_DOMAINS
+    return int(e[dx + 1])
+
+  def _preprocessor(self, prep):
+    if prep == 'coarsen':
+      fn = lambda ex: {**ex, 'domain_id': ex['domain_id'] // 2}
+    elif prep == 'from_y':
+      fn = lambda ex: {**ex, 'domain_id': np.mod(ex['y'].astype(np.int32), NUM_DOMAINS).astype(np.int32)}
+    else:
+      return None
+    return self.cds.BatchPreprocessor([fn])
+
+  def _algo_case(self, rng, tier, api=None, reg='random', repeat_ids=False, force_prep=None):
     api = api or rng.choice(['afa', 'afa', 'mime-algo', 'mimelite-algo'])
     fam = rng.choice(['sq', 'sq', 'lin'])
     dx = 2
@@ -282,10 +306,18 @@ class C06(core.Property):
     if api != 'afa' and rng.random() < 0.2:
       clients.append([])                              # an empty client contributes weight 0
     flat = [e for c in clients for e in c]
+    prep = None
     if api == 'afa':
-      for j in range(NUM_DOMAINS):                     # every domain is present in the cohort
-        if not any(e[dx + 1] == j for e in flat):
-          clients[0].append(self._example(rng, dx, fam)[:dx + 1] + [j])
+      prep = force_prep or rng.choice([None, None, 'coarsen', 'from_y'])
+      if prep == 'coarsen':                            # raw groups 0..5, domain = group // 2
+        for c in clients:
+          for e in c:
+            e[dx + 1] = 2 * e[dx + 1] + rng.randrange(2)
+      for j in range(NUM_DOMAINS):                     # every (preprocessed) domain is present in the cohort
+        if not any(self.prep_domain(prep, e, dx) == j for e in flat):
+          e = self._example(rng, dx, fam)
+          e[dx], e[dx + 1] = (j if prep == 'from_y' else e[dx]), (2 * j if prep == 'coarsen' else j)
+          clients[0].append(e)
     if reg == 'random':
       reg = rng.choice([None, ['l2', 0.25], ['l2', 0.25], ['custom']])
     k = 3 if tier == 'thorough' else 2
@@ -293,6 +325,8 @@ class C06(core.Property):
             'clients': clients, 'geoms': rng.sample(ALGO_GEOMS, k),
             'rounds': rng.choice([1, 2]) if api == 'afa' else rng.choice([1, 1, 2]),
             'opt': None if api == 'afa' else rng.choice(['momentum', 'momentum', 'adam'])}
+    if prep:
+      case['prep'] = prep
     if api in REPEATED_ID_APIS and (repeat_ids or rng.random() < 0.4):
       # a client id that occurs twice in the cohort (sampling with replacement): every listed entry counts
       if rng.random() < 0.5 or len(clients) < 2:
@@ -348,6 +382,7 @@ class C06(core.Property):
     yield self._algo_case(rng, tier, api='mime-algo', reg=['l2', 0.25])
     yield self._algo_case(rng, tier, api='mimelite-algo', reg=['l2', 0.25])
     yield self._algo_case(rng, tier, api='mime-algo', repeat_ids=True)
+    yield self._algo_case(rng, tier, api='afa', force_prep=rng.choice(['coarsen', 'from_y']))
     yield self._regseq_case(rng)
     for i in range(n):
       if i % every == every - 1:
@@ -501,6 +536,7 @@ class C06(core.Property):
   # ------------------------------------------------------------------------------------------ evaluation
 
   def evaluate(self, case, ctx):
+    self._ctx = ctx
     if case['kind'] == 'batch':
       return self._eval_batch(case, ctx)
     if case['kind'] == 'algo':
@@ -617,8 +653,11 @@ class C06(core.Property):
 
   def _first_moment(self, opt_state):
     """momentum trace / Adam first moment of the base optimizer state, flattened like the params"""
-    st0 = opt_state[0]
-    return self.flat(st0.mu if hasattr(st0, 'mu') else st0.trace)
+    try:
+      st0 = opt_state[0]
+      return self.flat(st0.mu if hasattr(st0, 'mu') else st0.trace)
+    except Exception:
+      return None          # unknown state layout: the server-gradient sub-check is skipped (counted), not failed
 
   def _eval_algo(self, case, ctx):
     api, fam, dx = case['api'], case['fam'], case['dx']
@@ -628,9 +667,12 @@ class C06(core.Property):
     reg = self.make_reg(case['reg'], dx)
     clients = case['clients']
     dss = []
+    prep = case.get('prep')
+    pp = self._preprocessor(prep)
     for ex in clients:
       x, y, dom = self._arrays(ex, dx)
-      dss.append(self.cds.ClientDataset({'x': x, 'y': y, 'domain_id': dom}))
+      raw = {'x': x, 'y': y, 'domain_id': dom}
+      dss.append(self.cds.ClientDataset(raw, pp) if pp is not None else self.cds.ClientDataset(raw))
     ids = case.get('ids') or list(range(len(dss)))
     cl = [(b'c%d' % ids[i], ds, jax.random.PRNGKey(i)) for i, ds in enumerate(dss)]
     problems, corr, key = [], [], None
@@ -650,7 +692,7 @@ class C06(core.Property):
       for ex in clients:
         x, y, dom = self._arrays(ex, dx)
         l, g = self.per_example(fam, params, x, y)
-        out.append((l, g, [int(v) for v in dom]))
+        out.append((l, g, [self.prep_domain(prep, e, dx) for e in ex]))      # PREPROCESSED domain ids
       return out
 
     runs = []        # per geometry: list over rounds of observation dicts
@@ -671,7 +713,9 @@ class C06(core.Property):
             # server_grads recovered from the optimizer state: momentum trace_t = g + 0.9 trace_{t-1};
             # Adam mu_t = 0.9 mu_{t-1} + 0.1 g
             new_m, old_m = self._first_moment(st.opt_state), self._first_moment(prev.opt_state)
-            if case.get('opt') == 'adam':
+            if new_m is None or old_m is None:
+              ctx.count('server_grads_unobservable_optimizer_state')
+            elif case.get('opt') == 'adam':
               o['server_grads'] = [(a - 0.9 * b) / 0.1 for a, b in zip(new_m, old_m)]
             else:
               o['server_grads'] = [a - 0.9 * b for a, b in zip(new_m, old_m)]
@@ -709,7 +753,7 @@ class C06(core.Property):
           ref = {'dw': [v / tot for v in w], 'counts': [float(c) for c in cnts], 'mean_domain_loss': mean}
           if not close(o['counts'], ref['counts'], 0, 0):
             fail('domain-counts', f'round {rnd + 1}, geometry {case["geoms"][gi]}: domain counts {o["counts"]} != '
-                                  f'{ref["counts"]} of the raw examples')
+                                  f'{ref["counts"]} of the (preprocessed) examples')
           if not close(o['dw'], ref['dw']):
             fail('domain-weights', f'round {rnd + 1}, geometry {case["geoms"][gi]}: domain weights {o["dw"]} != '
                                    f'{ref["dw"]} = exponentiated-gradient step on the per-domain mean losses '
@@ -719,7 +763,7 @@ class C06(core.Property):
           n = sum(len(l) for l, _, _ in pcv)
           fg = [(sum(gi_[k] for _, g, _ in pcv for gi_ in g) / n + float(r[k])) if n else 0.0 for k in range(d)]
           ref = {'server_grads': fg}
-          if not close(o['server_grads'], fg):
+          if 'server_grads' in o and not close(o['server_grads'], fg):
             fail('server-grads', f'round {rnd + 1}, geometry {case["geoms"][gi]}: server full-batch gradient '
                                  f'{o["server_grads"]} (recovered from the base optimizer state) != {fg} = mean '
                                  f'per-example gradient of the unpadded examples + regularizer gradient (once)')
@@ -768,14 +812,15 @@ class C06(core.Property):
           a = ctx.drv.ask([line('c06.fullgrad', d, r, rows_c)])[0]
           mg = None if a is None else [float(v) for v in a]
           model_out.append({'geom': geom, 'round': rnd + 1, 'server_grads': mg})
-          if mg is None or not close(o['server_grads'], mg):
+          if 'server_grads' in o and (mg is None or not close(o['server_grads'], mg)):
             corr.append(f'round {rnd + 1}, geometry {geom}: implementation server gradient {o["server_grads"]} vs model {mg}')
 
     n_ex = sum(len(c) for c in clients)
     multi_batch = any(-(-len(c) // g[0]) > 1 for c in clients for g in case['geoms'])
     tags = (f'api={api}', f'fam={fam}', 'reg' if case['reg'] else 'noreg', f'clients={len(clients)}',
             f'rounds={case["rounds"]}', f'opt={case.get("opt")}', 'algo-level',
-            'repeated-client-id' if case.get('ids') and len(set(case['ids'])) < len(case['ids']) else 'distinct-client-ids')
+            'repeated-client-id' if case.get('ids') and len(set(case['ids'])) < len(case['ids']) else 'distinct-client-ids',
+            f'preprocessor={case.get("prep")}')
     for obs in runs:
       if obs:
         for o in obs:
@@ -980,6 +1025,15 @@ class C06(core.Property):
             fail('value', f'{nm[k]} of {kk}: got {got[k]}, the real examples give {float(want[k])} '
                           f'under layout {case["layouts"][li]}')
             break
+    if api == 'cluster':
+      for li, res in enumerate(results):
+        if res is None or 'assign' not in res:
+          continue
+        for ci, a in enumerate(res['assign']):
+          ls = [expected[(pi, ci)][0] for pi in range(len(plist))]
+          if not (0 <= a < len(ls)) or float(ls[a] - min(ls)) > 2 * tol(scale[(a if 0 <= a < len(ls) else 0, ci)][0], ls[0]):
+            fail('assignment', f'maximization_step assigns client {ci} to cluster {a}, but its average losses are '
+                               f'{[float(v) for v in ls]} (layout {case["layouts"][li]})')
     if results[0] is not None and results[1] is not None and not problems:
       for kk in expected:
         a, b = results[0][kk], results[1][kk]
@@ -1086,10 +1140,30 @@ class C06(core.Property):
         x, y, dom = self._arrays(ex, case['dx'])
         dss.append(cds.ClientDataset({'x': x, 'y': y, 'domain_id': dom}))
       hp = cds.PaddedBatchHParams(batch_size=lay[0][1], num_batch_size_buckets=lay[0][2])
-      res = self.hc._cluster_losses(ev, plist, [(cid, ds, self.rng) for cid, ds in zip(cids, dss)], hp)
+      cl_arg = [(cid, ds, self.rng) for cid, ds in zip(cids, dss)]
+      # per-(client, cluster) losses: the private helper if this tree still has it with this shape, otherwise the
+      # public composition it stands for (AverageLossEvaluator on padded_batch(hparams), once per cluster)
+      res = None
+      helper = getattr(self.hc, '_cluster_losses', None)
+      if helper is not None:
+        try:
+          r_ = helper(ev, plist, cl_arg, hp)
+          res = {cid: [float(r_[cid][pi]) for pi in range(len(plist))] for cid in cids}
+        except (TypeError, KeyError, IndexError, AttributeError):
+          res = None
+      if res is None:
+        self._ctx.count('cluster_losses_via_public_path')
+        res = {cid: [] for cid in cids}
+        for p_ in plist:
+          r_ = dict(ev.evaluate_global_params(p_, [(cid, ds.padded_batch(hp), self.rng) for cid, ds in zip(cids, dss)]))
+          for cid in cids:
+            res[cid].append(float(r_[cid]))
       for ci, cid in enumerate(cids):
         for pi in range(len(plist)):
-          out[(pi, ci)] = [float(res[cid][pi])]
+          out[(pi, ci)] = [res[cid][pi]]
+      # the public maximisation step: every client goes to a cluster of lowest average loss
+      asg = self.hc.maximization_step(ev, plist, cl_arg, hp)
+      out['assign'] = [int(asg[cid]) for cid in cids]
     elif api == 'mime':
       gfn = self._grad_fn({**case, 'api': 'grad'}, reg)
       fe = self._cached(('mime', fam, case['reg'], case['dx']), lambda: self.mime.create_grads_for_each_client(gfn))
